@@ -62,7 +62,18 @@ class Effects:
             params = set(f.params)
             # a parameter name that has been rebound (p = p.copy(), p = np.empty(..)) no longer denotes the argument
             rebound = {}
+            # `if p is None: p = default()` gives an absent argument its default: for a caller that did pass an object, p still is that object
+            defaulting = set()
             for n in ast.walk(f.node):
+                if isinstance(n, ast.If) and isinstance(n.test, ast.Compare) and len(n.test.ops) == 1 and isinstance(n.test.ops[0], ast.Is) \
+                        and isinstance(n.test.left, ast.Name) and n.test.left.id in params \
+                        and isinstance(n.test.comparators[0], ast.Constant) and n.test.comparators[0].value is None:
+                    for st in n.body:
+                        if isinstance(st, ast.Assign) and any(isinstance(t, ast.Name) and t.id == n.test.left.id for t in st.targets):
+                            defaulting.add(id(st))
+            for n in ast.walk(f.node):
+                if id(n) in defaulting:
+                    continue
                 if isinstance(n, (ast.Assign, ast.AnnAssign)):
                     tgts = n.targets if isinstance(n, ast.Assign) else [n.target]
                     for t in tgts:
